@@ -5,9 +5,10 @@
 budget=${1:-30}
 cd /verif
 declare -A extra=( [C01]="C04" [C03]="" [C04]="C01" [C05]="" [C09]="C12" [C10]="C11" )
-for d in seeded/C*/[a-d]; do
+for d in seeded/C*/[a-j]; do
   id=$(basename $(dirname $d)); m=$(basename $d)
   [ -f $d/patch.diff ] || continue
   echo "## $id/$m: $(python3 -c "import json;print(json.load(open('$d/meta.json')).get('summary','')[:160])" 2>/dev/null)"
-  tools/eval_mutant_isolated.sh $d/patch.diff $budget $id ${extra[$id]:-}
+  # only the check of the change's own property by default; SENS_EXTRA=1 adds the related checks
+  if [ "${SENS_EXTRA:-0}" = 1 ]; then tools/eval_mutant_isolated.sh $d/patch.diff $budget $id ${extra[$id]:-}; else tools/eval_mutant_isolated.sh $d/patch.diff $budget $id; fi
 done
